@@ -249,41 +249,69 @@ def _frames_of(x, dim):
     return n
 
 
-def _live_chunks(case):
-    """(accumulated tensors seen by the last successful store, its bessel flag) - python bookkeeping for the spec."""
-    live, last = [], None
+def _history(case):
+    """python bookkeeping for the spec: for every store the tensors accumulated since the last *successful deleting*
+    store (with its bessel flag and whether it must succeed: >= 2 frames), and the tensors live at the end.
+    None when the tensors do not agree on the coefficient count (broadcast / error histories: outcome fixed uniquely)."""
+    live, stores = [], []
+    sizes = set()
     for op in case["ops"]:
         if op["op"] == "acc":
             live.append(op["x"])
-        elif sum(_frames_of(x, case["dim"]) for x in live) >= 2:
-            last = (list(live), op["bessel"])
-            if op["delete"]:
+            D = len(op["x"]["shape"])
+            if case["dim"] < -D or case["dim"] >= D:
+                return None
+            sizes.add(op["x"]["shape"][case["dim"]])
+        else:
+            ok = sum(_frames_of(x, case["dim"]) for x in live) >= 2
+            stores.append((list(live), op["bessel"], ok))
+            if ok and op["delete"]:
                 live = []
-    return last
+    if len(sizes) > 1:
+        return None
+    return stores, live
 
 
 def ops_spec_term(case, out):
-    """The property's own reading on the implementation's last stored mean/std."""
-    last = [s for s in out["stores"] if s[0] == "ok"]
-    seen = _live_chunks(case)
-    if out["final"][0] != "ok":
+    """The property's own reading of a history, on the implementation's outputs alone: EVERY store's mean/std against the
+    pooled statistics of the tensors accumulated since the last deleting store, the buffers left at the end against the
+    pooled sums of the live tensors, and the documented formula on every normalised tensor."""
+    if out["final"][0] != "ok" or any(s[0] == "bad" for s in out["stores"]):
         return None
-    if not last or seen is None or any(s[0] == "bad" for s in out["stores"]):
-        return "true" if not last and seen is None else "false"
-    if not (finite(last[-1][1]) and finite(last[-1][2])):
-        return "false"
-    xs = cl([lit_case_tensor(x, case["scale"], DT[case["dtype"]]) for x in seen[0]])
-    parts = [f"spec_stats_okb {cz(case['dim'])} {xs} {cb(seen[1])} {cq(TOL64)} "
-             f"{lit_qs(fr_list(last[-1][1]))} {lit_qs(fr_list(last[-1][2]))}"]
-    # the documented formula on every normalised tensor
+    h = _history(case)
+    if h is None or len(h[0]) != len(out["stores"]):
+        return None
+    dt = DT[case["dtype"]]
+    loose = case.get("offgrid") and case["dtype"] == "f32"
+    tol = cq(Fraction(1, 10**5) if loose else TOL64)
+    tola = cq((Fraction(1, 10**5) if loose else TOL64) if case.get("offgrid") else Fraction(0))
+    parts = []
+    for (live, bessel, must_ok), st in zip(h[0], out["stores"]):
+        if not must_ok:
+            parts.append(cb(st[0] == "err" and st[1] == "RuntimeError"))
+            continue
+        if st[0] != "ok" or not (finite(st[1]) and finite(st[2])):
+            return "false"
+        xs = cl([lit_case_tensor(x, case["scale"], dt) for x in live])
+        parts.append(f"spec_stats_okb {cz(case['dim'])} {xs} {cb(bessel)} {tol} {lit_qs(fr_list(st[1]))} {lit_qs(fr_list(st[2]))}")
+    live = h[1]
+    if out["final"][1] is None:
+        parts.append(cb(not live))
+    elif not live:
+        parts.append("false")
+    else:
+        c, sm, sq = out["final"][1]
+        xs = cl([lit_case_tensor(x, case["scale"], dt) for x in live])
+        parts.append(f"spec_buffers_okb {cz(case['dim'])} {xs} {tola} {cq(Fraction(c))} {lit_qs(fr_list(sm))} {lit_qs(fr_list(sq))}")
+    last = [s for s in out["stores"] if s[0] == "ok"]
     accs = [op for op in case["ops"] if op["op"] == "acc"]
     for op, f in zip(accs, out["fwd"] or []):
-        if f[0] != "ok":
+        if f[0] != "ok" or not last:
             continue
-        parts.append(f"spec_norm_formula_okb {lit_case_tensor(op['x'], case['scale'], DT[case['dtype']])} {cz(case['dim'])} "
+        parts.append(f"spec_norm_formula_okb {lit_case_tensor(op['x'], case['scale'], dt)} {cz(case['dim'])} "
                      f"{lit_qs(fr_list(last[-1][1]))} {lit_qs(fr_list(last[-1][2]))} {cq(Fraction(case['eps']))} "
                      f"{cq(_fwd_tol(case, f))} {lit_impl_tensor(f[1])}")
-    return "(" + " && ".join(parts) + ")"
+    return "(" + " && ".join(parts or ["true"]) + ")"
 
 
 def ops_metamorphic(case, out, rng_seed):
@@ -727,7 +755,15 @@ def gen_ops_exhaustive(chk, thorough):
         for b, block in enumerate(part):
             blk = list(reversed(block)) if (k + b) % 2 else block
             ops.append({"op": "acc", "x": {"shape": [len(blk), 2], "data": [v for f in blk for v in f]}})
+        if k % 3 == 1 and len(ops) >= 2:   # store(delete_stats=False) mid-way, every other time twice in a row
+            mid = [{"op": "store", "delete": False, "bessel": k % 2 == 0}]
+            if k % 6 == 1:
+                mid.append({"op": "store", "delete": False, "bessel": k % 2 == 1})
+            cut = 1 + (k // 3) % (len(ops) - 1)
+            ops = ops[:cut] + mid + ops[cut:]
         ops.append({"op": "store", "delete": k % 3 == 0, "bessel": k % 2 == 1})
+        if k % 5 == 2:                     # and a repeated final store
+            ops.append({"op": "store", "delete": False, "bessel": k % 2 == 0})
         cases.append(dict(kind="ops", dim=-1, scale=4, dtype="f64", eps=TINY, ops=ops, stream="exhaustive"))
     return cases
 
@@ -758,6 +794,29 @@ def gen_ops_random(rng, malformed=False):
     ops.append({"op": "store", "delete": rng.random() < 0.5, "bessel": rng.random() < 0.5})
     return dict(kind="ops", dim=dim, scale=rng.choice([1, 4]), dtype=rng.choice(["f64", "f64", "f32"]),
                 eps=rng.choice([TINY, 1e-5, 0.5, 3.0]), ops=ops, stream="malformed" if malformed else "random")
+
+
+def gen_ops_history(rng):
+    """histories around non-deleting stores: accumulate*, store(delete_stats=False), [store again], accumulate*, store, ..."""
+    dim = rng.choice([-1, -1, 0, 1, -2])
+    X = rng.choice([1, 2, 3])
+    nd_min = dim + 1 if dim >= 0 else -dim
+
+    def acc():
+        D = rng.randint(nd_min, max(nd_min, 3))
+        shape = [rng.choice([1, 2, 2, 3]) for _ in range(D)]
+        shape[dim] = X
+        return {"op": "acc", "x": rand_tensor(rng, shape)}
+
+    ops = [acc() for _ in range(rng.choice([1, 2, 3]))]
+    for stage in range(rng.choice([1, 2, 2, 3])):
+        ops.append({"op": "store", "delete": False if stage == 0 else rng.random() < 0.3, "bessel": rng.random() < 0.5})
+        if rng.random() < 0.4:   # a repeated store with nothing in between
+            ops.append({"op": "store", "delete": False, "bessel": rng.random() < 0.5})
+        ops += [acc() for _ in range(rng.choice([0, 1, 1, 2]))]
+    ops.append({"op": "store", "delete": rng.random() < 0.5, "bessel": rng.random() < 0.5})
+    return dict(kind="ops", dim=dim, scale=rng.choice([1, 4]), dtype=rng.choice(["f64", "f64", "f32"]),
+                eps=rng.choice([TINY, 1e-5, 0.5]), ops=ops, stream="history")
 
 
 def gen_ops_offgrid(rng):
@@ -1001,6 +1060,8 @@ def gen_cases(chk):
         cases.append(gen_ops_random(rng))
     for _ in range(30 * mult):
         cases.append(gen_ops_random(rng, malformed=True))
+    for _ in range(60 * mult):
+        cases.append(gen_ops_history(rng))
     for _ in range(40 * mult):
         cases.append(gen_ops_offgrid(rng))
     for _ in range(110 * mult):
